@@ -400,6 +400,11 @@ class AstInfo:
             True if self should be covered, False otherwise.
         """
         start_line = scope_line_range(self.ast)[0]
+        # The definition itself must not lie in an excluded branch of a conditional
+        # instruction (e.g. a fallback defined in an excluded "except" block).
+        module_info = AstInfo(ast=self.module.module_ast, module=self.module)
+        if not module_info._in_covered_branches(start_line):
+            return False
         return self._in_cover(start_line) and all(
             self._in_cover(scope_line_range(definition_node)[0])
             for definition_node in nodes_of_class(
@@ -425,9 +430,17 @@ class AstInfo:
             True if it should be covered, False otherwise.
             Defaults to True if there is no instruction at lineno.
         """
-        if not self._in_cover(lineno):
-            return False
+        return self._in_cover(lineno) and self._in_covered_branches(lineno)
 
+    def _in_covered_branches(self, lineno: int) -> bool:
+        """Check that no conditional instruction containing the line excludes it.
+
+        Args:
+            lineno: The line number.
+
+        Returns:
+            False if a branch that contains the line is in the `no_cover_lines`.
+        """
         for branch_node in nodes_of_class(
             self.ast, (ast.If, ast.For, ast.While, ast.Match, ast.Try, TryStar)
         ):
